@@ -172,7 +172,10 @@ static Dyn make_state(const EclipseState& es, const Schedule& sched, std::size_t
         x.control = 1;
         x.dynamicStatus = Well::Status::OPEN;
         x.current_control.isProducer = well.isProducer();
-        if (well.isProducer()) x.current_control.prod = Well::ProducerCMode::ORAT; else x.current_control.inj = Well::InjectorCMode::RATE;
+        // the control the simulator found active: the rate target or the pressure limit
+        const bool onLimit = rng.below(3) == 0;
+        if (well.isProducer()) x.current_control.prod = onLimit ? Well::ProducerCMode::BHP : Well::ProducerCMode::ORAT;
+        else x.current_control.inj = onLimit ? Well::InjectorCMode::BHP : Well::InjectorCMode::RATE;
         for (const auto& conn : well.getConnections()) {
             if (!grid.cellActive(conn.global_index())) continue;
             data::Connection c;
@@ -230,11 +233,20 @@ static json rst_project(const Schedule& sched, std::size_t step) {
             const auto& p = w.getProductionProperties();
             j["ctrl"] = {{"orat", uda(p.OilRate)}, {"wrat", uda(p.WaterRate)}, {"grat", uda(p.GasRate)}, {"lrat", uda(p.LiquidRate)},
                          {"resv", uda(p.ResVRate)}, {"bhp", uda(p.BHPTarget)}, {"thp", uda(p.THPTarget)}, {"vfp", p.VFPTableNumber},
-                         {"cmode", WellProducerCMode2String(p.controlMode)}, {"pred", p.predictionMode}};
+                         {"pred", p.predictionMode}};       // (the control mode restarts from the control that was active)
+            json has = json::array();
+            for (const auto m : {Well::ProducerCMode::ORAT, Well::ProducerCMode::WRAT, Well::ProducerCMode::GRAT, Well::ProducerCMode::LRAT,
+                                 Well::ProducerCMode::RESV, Well::ProducerCMode::BHP, Well::ProducerCMode::THP, Well::ProducerCMode::GRUP})
+                if (p.hasProductionControl(m)) has.push_back(WellProducerCMode2String(m));
+            j["controls"] = has;
         } else {
             const auto& p = w.getInjectionProperties();
             j["ctrl"] = {{"rate", uda(p.surfaceInjectionRate)}, {"resv", uda(p.reservoirInjectionRate)}, {"bhp", uda(p.BHPTarget)},
-                         {"thp", uda(p.THPTarget)}, {"type", int(p.injectorType)}, {"cmode", WellInjectorCMode2String(p.controlMode)}, {"pred", p.predictionMode}};
+                         {"thp", uda(p.THPTarget)}, {"type", int(p.injectorType)}, {"pred", p.predictionMode}};
+            json has = json::array();
+            for (const auto m : {Well::InjectorCMode::RATE, Well::InjectorCMode::RESV, Well::InjectorCMode::BHP, Well::InjectorCMode::THP, Well::InjectorCMode::GRUP})
+                if (p.hasInjectionControl(m)) has.push_back(WellInjectorCMode2String(m));
+            j["controls"] = has;
         }
         json cs = json::array();
         for (const auto& c : w.getConnections())
